@@ -40,6 +40,8 @@ def _ref_tree(rel: str):
         s = _ref_sources().get(rel)
         try:
             _REF_TREES[rel] = ast.parse(s) if s is not None else None
+            if _REF_TREES[rel] is not None:
+                strip_local_annotations(_REF_TREES[rel])
         except SyntaxError:
             _REF_TREES[rel] = None
     return _REF_TREES[rel]
@@ -116,6 +118,28 @@ def strip_noops(tree: ast.AST) -> int:
                 if keep:
                     n += len(blk) - len(keep)
                     blk[:] = keep
+    return n
+
+
+def strip_local_annotations(tree: ast.AST) -> int:
+    """Inside function bodies, `x: T = v` -> `x = v` (annotations of locals/attributes have no run-time effect; the annotation
+    expression of a non-simple target is evaluated, but every annotation in this code base is a pure type expression -- and with
+    `from __future__ import annotations` not evaluated at all)."""
+    n = 0
+    for fn in ast.walk(tree):
+        if not isinstance(fn, FuncNode):
+            continue
+        for node in ast.walk(fn):
+            for field in ("body", "orelse", "finalbody"):
+                blk = getattr(node, field, None)
+                if not isinstance(blk, list):
+                    continue
+                for i, st in enumerate(blk):
+                    if isinstance(st, ast.AnnAssign) and st.value is not None:
+                        new = ast.Assign(targets=[st.target], value=st.value, type_comment=None)
+                        ast.copy_location(new, st)
+                        blk[i] = new
+                        n += 1
     return n
 
 
@@ -204,7 +228,7 @@ def align_branches(ref_fn, cur_fn) -> int:
 def normalise_module(rel: str, tree: ast.AST) -> int:
     """Strip no-op statements, align branch polarity with the reference spelling, and rename locals of `tree` in place back to
     reference names; returns the number of rewrites."""
-    n = strip_noops(tree)
+    n = strip_noops(tree) + strip_local_annotations(tree)
     ref = _ref_tree(rel)
     if ref is None:
         return n
